@@ -38,6 +38,8 @@ def run(P, R, L):
     R.once(blind.ord23_reader_position_follows_the_file, P, R, L)
     R.clause("GRD-6 (source)", "ErrorKind::UnexpectedEof - which read_record turns into a clean end of the log - is constructed only behind a short read")
     R.once(blind.grd6b_eof_only_from_a_short_read, P, R, L)
+    R.clause("GRD-6", "read_record reports a clean end of the log only for ErrorKind::UnexpectedEof from the physical read or the cursor-at-length test made before anything was read: a record that fails to parse is never answered with `end of log` (a flipped bit in the last manifest record would silently drop that version edit)")
+    R.once(K.grd6, P, R, L)
     from . import blind as _blind
     R.clause("ENUM-1", "the hand-written tag decoders (Operation, BlockType, compression type, manifest field tags) invert the enums' discriminants")
     R.once(_blind.enum1_tag_decoders, P, R, L)
